@@ -392,16 +392,17 @@ func (in *instr) pkgFunc(sel *ast.SelectorExpr) (path, name string, ok bool) {
 }
 
 var pkgFuncShims = map[string]string{
-	"net.Dial":           "NetDial",
-	"net.DialTimeout":    "NetDialTimeout",
-	"crypto/tls.Dial":    "TLSDial",
-	"net/http.Get":       "HTTPGet",
-	"path/filepath.Walk": "FilepathWalk",
-	"os.ReadFile":        "OSReadFile",
-	"os.Stat":            "OSStat",
-	"net.Listen":         "NetListen",
-	"math/rand.Intn":     "RandIntn",
-	"math/rand.Seed":     "RandSeed",
+	"net.Dial":                  "NetDial",
+	"net.DialTimeout":           "NetDialTimeout",
+	"crypto/tls.Dial":           "TLSDial",
+	"crypto/tls.DialWithDialer": "TLSDialWithDialer",
+	"net/http.Get":              "HTTPGet",
+	"path/filepath.Walk":        "FilepathWalk",
+	"os.ReadFile":               "OSReadFile",
+	"os.Stat":                   "OSStat",
+	"net.Listen":                "NetListen",
+	"math/rand.Intn":            "RandIntn",
+	"math/rand.Seed":            "RandSeed",
 }
 
 // observeCtors are constructor calls whose result is recorded in the live simulation
